@@ -188,6 +188,17 @@ func (l *lab) ServeRADIUS(w radius.ResponseWriter, r *radius.Request) {
 		// released by Z: nobody waits for this handler
 		return
 	}
+	// "carries … the server context": also through the request's own accessors - WithContext gives a shallow copy
+	// with the new context and leaves the request it was called on alone; a request without a context has Background
+	{
+		type labCtxKey struct{}
+		c2 := context.WithValue(r.Context(), labCtxKey{}, 1)
+		r2 := r.WithContext(c2)
+		if r2 == r || r2.Context() != c2 || r.Context() == c2 || r2.Packet != r.Packet || r2.RemoteAddr != r.RemoteAddr ||
+			r2.LocalAddr != r.LocalAddr || (&radius.Request{}).Context() != context.Background() {
+			ctxOK = false
+		}
+	}
 	t.started <- fmt.Sprintf("%s:%d:%s:%s:%s:%s:ctx=%v:done=%v", r.RemoteAddr.String(), r.Identifier, itoa(int(r.Code)), showAttributes(r.Attributes), hx(r.Secret), r.LocalAddr.String(), ctxOK, r.Context().Err() != nil)
 	var code int
 	for waiting := true; waiting; {
@@ -1281,6 +1292,10 @@ func genC06(g *Gen, tier string, emit func(op string, args ...string)) {
 		// a datagram the read had already taken when Shutdown closed the conn is a received datagram: exactly one
 		// handler, the reply goes out, and Shutdown waits for it
 		sc("S0", "s0", "X0", "x0", "D0:0:"+d, "d0", "F0:2", "e0", "W0")
+		// a handler whose reply cannot be encoded (no such code): Write reports the error, nothing goes out, the request
+		// is released when the handler returns and the server keeps serving
+		sc("S0", "s0", "D0:0:"+d, "d0", "F0:77", "D0:0:"+d, "d1", "F1:2")
+		sc("S0", "s0", "D0:0:"+e, "d0", "R0:256", "R0:5", "F0:300", "D0:0:"+e, "d1", "F1:5")
 		sc("S0", "s0", "X0", "x0", "D0:0:"+e, "W0", "d0", "W0", "F0:5", "W0", "e0", "W0")
 		sc("S0", "s0", "D0:0:"+d, "d0", "X0", "x0", "D0:0:"+d, "d1", "D0:0:"+e, "d2", "F0:2", "F2:5", "e0", "W0")
 	}
